@@ -103,6 +103,13 @@ func (env *Env) eval(e Expr) (CVal, error) {
 				return v, nil
 			}
 		}
+		if srtName, ok := fc.e.specs.GhostVars[x.Name]; ok {
+			gt, srt, err := fc.e.resolveType(srtName, env.pkg)
+			if err != nil {
+				return CVal{}, err
+			}
+			return CVal{fc.heapGet(env.state(), "GV"+x.Name, srt), gt}, nil
+		}
 		// package-level constant
 		if p := fc.e.pkgs[env.pkg]; p != nil && p.Types != nil {
 			if obj := p.Types.Scope().Lookup(x.Name); obj != nil {
@@ -772,6 +779,14 @@ type loc struct {
 func (env *Env) evalLocs(e Expr) ([]loc, error) {
 	fc := env.fc
 	switch x := e.(type) {
+	case *EIdent:
+		if srtName, ok := fc.e.specs.GhostVars[x.Name]; ok {
+			_, srt, err := fc.e.resolveType(srtName, env.pkg)
+			if err != nil {
+				return nil, err
+			}
+			return []loc{{"GV" + x.Name, srt, Term{"", "SCALAR"}}}, nil
+		}
 	case *ESel:
 		base, err := env.eval(x.X)
 		if err != nil {
